@@ -224,12 +224,23 @@ def without_schedule():
 
 def gen_instance(rng):
     """Random candidate graph in the property's terms (refmodel instance)."""
-    mode = rng.choices(["random", "interval", "notie", "dense"], weights=[4, 3, 4, 1])[0]
+    mode = rng.choices(["random", "interval", "notie", "dense", "big", "largevals", "chain"],
+                       weights=[4, 3, 4, 1, 2, 2, 2])[0]
     ns, nr = rng.randint(1, 6), rng.randint(1, 6)
     span = 60 if mode == "notie" else rng.choice([12, 25, 40])
+    maxdur = 30 if mode == "notie" else rng.choice([3, 6, 10])
+    if mode == "big":
+        # one large connected group: long displacement cascades, storms with many candidates
+        ns, nr = rng.randint(6, 10), rng.randint(6, 10)
+        span, maxdur = 400, rng.choice([12, 60, 200])
+    elif mode == "largevals":
+        # magnitudes far beyond what a short record produces (indices into 30 k-sample records and more)
+        span = rng.choice([5000, 70000, 300000, 5000000])
+        maxdur = rng.choice([300, 3000, 40000, 70000])
+    if mode == "chain":
+        return gen_chain_instance(rng)
     s_starts = rng.sample(range(span), ns)
     r_starts = rng.sample(range(span), nr)
-    maxdur = 30 if mode == "notie" else rng.choice([3, 6, 10])
     storms = {s: (s, rng.randint(1, maxdur)) for s in s_starts}
     rises = {r: (r, rng.randint(1, maxdur)) for r in r_starts}
     edges = set()
@@ -240,6 +251,8 @@ def gen_instance(rng):
                     edges.add((s, r))
     else:
         p = 1.0 if mode == "dense" else rng.choice([0.3, 0.5, 0.8])
+        if mode == "big":
+            p = rng.choice([0.25, 0.4, 0.7])
         for s in storms:
             for r in rises:
                 if rng.random() < p:
@@ -261,6 +274,36 @@ def gen_instance(rng):
     used_r = {r for _, r in inst["edges"]}
     inst["storms"] = {s: v for s, v in inst["storms"].items() if s in used_s}
     inst["rises"] = {r: v for r, v in inst["rises"].items() if r in used_r}
+    return inst
+
+
+def gen_chain_instance(rng):
+    """A displacement cascade by construction: storm i's first choice is rise i,
+    rise i's favourite is storm i+1 whose own first choice is rise i ... so that
+    under most orders every proposal displaces the previous holder."""
+    k = rng.randint(3, 9)
+    base = rng.choice([10, 1000, 50000])
+    storms, rises, edges = {}, {}, set()
+    # rises at increasing starts with distinct durations
+    durs = rng.sample(range(2, 40 + 3 * k), k + 1)
+    r_ids = [base + 50 * i for i in range(k + 1)]
+    for r, d in zip(r_ids, durs):
+        rises[r] = (r, d)
+    for i in range(k):
+        # storm i overlaps rise i and rise i+1 (sometimes also i+2); duration closest to rise i+1
+        start = r_ids[i + 1] - rng.randint(1, 20) - i
+        dur = rises[r_ids[i + 1]][1] + rng.choice([-1, 0, 1]) * rng.randint(0, 1)
+        dur = max(1, dur)
+        while start in storms:
+            start -= 1
+        storms[start] = (start, dur)
+        edges.add((start, r_ids[i]))
+        edges.add((start, r_ids[i + 1]))
+        if i + 2 <= k and rng.random() < 0.4:
+            edges.add((start, r_ids[i + 2]))
+    inst = {"storms": storms, "rises": rises, "edges": edges}
+    used_r = {r for _, r in edges}
+    inst["rises"] = {r: v for r, v in rises.items() if r in used_r}
     return inst
 
 
